@@ -234,3 +234,33 @@ func harnessC09EndedContext() {
 	_, _ = delivered, live
 	vCover("published")
 }
+
+//verif:entry property=C09 tier=both bounds="a persistence timeout and a store that does not look at its context and, per append (symbolic), only completes after that deadline has passed: K publishes; each record is in the store when the handler of its publish runs, one record per publish, no failure reported for an append that succeeded" cover="slow-store" K_quick=2 K_thorough=3
+func harnessC09SlowStore() {
+	K := vParam("K", 2)
+	mem := NewMemoryStore()
+	fs := &flakyStore{inner: mem}
+	reported := 0
+	bus := New(WithStore(fs), WithPersistenceTimeout(time.Second),
+		WithPersistenceErrorHandler(func(ev any, t reflect.Type, err error) { reported++ }))
+	seenAtDelivery := make([]int, 0, K)
+	Subscribe(bus, func(e evF) {
+		evs, _, _ := mem.Read(context.Background(), OffsetOldest, 0)
+		seenAtDelivery = append(seenAtDelivery, len(evs))
+	})
+	for i := 0; i < K; i++ {
+		if vBool() {
+			fs.outcomes = append(fs.outcomes, 4) // completes, but only after the deadline
+		} else {
+			fs.outcomes = append(fs.outcomes, 0)
+		}
+	}
+	for i := 0; i < K; i++ {
+		Publish(bus, evF{N: i + 1, F: 1})
+		vAssert(len(seenAtDelivery) == i+1 && seenAtDelivery[i] == i+1, "record-visible-to-handler")
+	}
+	evs, _, err := mem.Read(context.Background(), OffsetOldest, 0)
+	vAssert(err == nil && len(evs) == K, "exactly-one-record-per-publish")
+	vAssert(reported == 0, "no-persistence-error-reported")
+	vCover("slow-store")
+}
